@@ -459,12 +459,42 @@ def check_primitive(ctx, prog):
             raise AnalysisBroken('%s not found' % prim)
         g = ps[0]
         ctx.analysed(g)
-        cs = [e for e in fn_exprs(g) if e.get('k') == 'call']
-        rets = [s for s in ir.walk_stmts(g['body']) if s.get('k') == 'return']
-        good = len(cs) == 1 and (cs[0].get('fn') or '').startswith(builtin) and cs[0].get('builtin') and len(rets) == 1 and strip(rets[0]['e']) is cs[0]
-        if good:
-            a = cs[0]['a']
-            good = strip(a[0]).get('k') == 'var' and strip(a[0]).get('vk') == 'param' and const_val(a[1]) == 1
+        # the primitive returns the result of one atomic read-modify-write builtin on its parameter with step +1 / -1, directly
+        # or through a chain of one-statement forwarding helpers (`return atomicAdd(x, -1);`): followed with the constant
+        # arguments substituted
+        want_step = 1 if opn == 'operator++' else -1
+
+        def resolve(h, env, depth=0):
+            """-> (builtin name, pointer-is-parameter, signed step) of the single returned call, or None"""
+            body = h['body']['s'] if h['body'].get('k') == 'block' else [h['body']]
+            stmts = [x for x in body if x.get('k') not in ('null', 'empty')]
+            if len(stmts) != 1 or stmts[0].get('k') != 'return' or stmts[0].get('e') is None or depth > 3:
+                return None
+            c = strip(stmts[0]['e'])
+            while c.get('k') in ('cast', 'paren'):
+                c = strip(c['e'])
+            if c.get('k') != 'call' or len(c.get('a', [])) != 2:
+                return None
+            ptr = strip(c['a'][0])
+            ptr_ok = ptr.get('k') == 'var' and ptr.get('vk') == 'param' and env.get(ptr.get('id'), True) is True
+            step = const_val(c['a'][1])
+            if step is None and strip(c['a'][1]).get('k') == 'var' and isinstance(env.get(strip(c['a'][1]).get('id')), int):
+                step = env[strip(c['a'][1])['id']]
+            if step is None:
+                return None
+            fnn = c.get('fn') or ''
+            if c.get('builtin') or fnn.startswith('__sync_') or fnn.startswith('__atomic_'):
+                if fnn.startswith('__sync_sub_and_fetch') or fnn.startswith('__atomic_sub_fetch'):
+                    return fnn, ptr_ok, -step
+                if fnn.startswith('__sync_add_and_fetch') or fnn.startswith('__atomic_add_fetch'):
+                    return fnn, ptr_ok, step
+                return fnn, ptr_ok, None
+            for h2 in prog.fn(fnn, c.get('sig')):
+                if h2.get('body') and len(h2['params']) == 2:
+                    return resolve(h2, {h2['params'][0]['id']: ptr_ok, h2['params'][1]['id']: step}, depth + 1)
+            return None
+        res = resolve(g, {})
+        good = res is not None and res[1] is True and res[2] == want_step
         plain = [e for e in fn_exprs(g) if e.get('k') == 'un' and e.get('op') in ('pre++', 'pre--', 'post++', 'post--', '*')]
         ctx.check(good and not plain, 'R-RC.a', prim, 'returns %s(x, 1)' % builtin, fwhere(g),
                   'atomic builtin on the parameter with step 1, its result returned', '%s is not `return %s(x, 1)`' % (prim, builtin))
